@@ -40,7 +40,7 @@ def check(run, ctx):
 
     T1 = run.rule("I1-T1", "from every rule's check()/finalize() that can construct a violation, the shared ignore gate is reachable in the over-approximate call graph", floor=19,
                   decides="a linter without any path to the shared directive parser cannot honour the documented directive forms")
-    T2 = run.rule("I1-T2", "the same for every language branch (_check_python/_check_typescript/_check_rust/_analyze) that can construct a violation", floor=20)
+    T2 = run.rule("I1-T2", "the same for every language branch (_check_python/_check_typescript/_check_rust/_analyze) that can construct a violation", floor=15)
     for r in L.rules:
         if r.short in EXEMPT_RULES:
             run.ok(T1, r.short, f"exempt: {EXEMPT_RULES[r.short]}", nontrivial=False)
